@@ -5,6 +5,7 @@ package hx
 
 import (
 	"bytes"
+	"encoding/json"
 	"errors"
 	"fmt"
 	"strings"
@@ -167,7 +168,9 @@ func Snapshot(t *gobinlog.Transaction) TxSnap {
 
 // Equal compares two snapshots and describes the first difference.
 func (a TxSnap) Diff(b TxSnap) string {
-	sa, sb := fmt.Sprintf("%+v", a), fmt.Sprintf("%+v", b)
+	ja, _ := json.Marshal(a)
+	jb, _ := json.Marshal(b)
+	sa, sb := string(ja), string(jb)
 	if sa == sb {
 		return ""
 	}
